@@ -130,7 +130,8 @@ fn check_full() -> Option<String> {
 }
 
 // ---- synthetic KyTea models (binary format as the reader consumes it), seeded ----
-const CHAR_MAP: &str = "KTHRDOabcdあい漢ア1x\u{4}";
+// (a character outside the BMP sits in the MIDDLE of the map: a map kept in 16-bit units would shift every later index)
+const CHAR_MAP: &str = "KTHRDOab𠀋cdあい漢ア1x\u{4}";
 fn cid(c: char) -> u16 { CHAR_MAP.chars().position(|x| x == c).unwrap() as u16 + 1 }
 fn put_u32(b: &mut Vec<u8>, v: u32) { b.extend_from_slice(&v.to_le_bytes()); }
 fn put_i16s(b: &mut Vec<u8>, vs: &[i16]) { put_u32(b, vs.len() as u32); for v in vs { b.extend_from_slice(&v.to_le_bytes()); } }
@@ -170,7 +171,7 @@ fn synth(seed: u64) -> Synth {
     // 0..8 dictionaries (the membership mask is one byte); the larger counts less often
     let n_dicts = if r.below(4) == 0 { 4 + r.below(5) as u8 } else { r.below(4) as u8 };
     let bias = r.below(201) as i16 - 100;
-    let text_chars: Vec<char> = "abcdあい漢ア1x".chars().collect();
+    let text_chars: Vec<char> = "abcdあい漢ア1x𠀋".chars().collect();
     // every 5th model: the invalid type letter 0x04 of some distributed KyTea models occurs in type n-grams (those n-grams
     // must be dropped by the conversion); every 4th model: dictionary weights near the i16 limits (sums over several
     // dictionaries leave the 16-bit range)
@@ -289,7 +290,7 @@ fn check_synth(seed: u64) -> Option<String> {
         // it segments every text as those weights dictate
         let (m, _) = match Model::read_slice(&out) { Ok(x) => x, Err(e) => return Some(format!("not re-read: {}", e)) };
         let p = match Predictor::new(m, false) { Ok(p) => p, Err(e) => return Some(format!("Predictor::new rejects it: {}", e)) };
-        for text in ["abcdあい漢ア1x", "aab漢漢アア11xあ", "x", "ああああ", "dcba1ア漢いあ"] {
+        for text in ["abcdあい漢ア1x", "aab漢漢アア11xあ", "x", "ああああ", "dcba1ア漢いあ", "a𠀋b𠀋𠀋cあ𠀋"] {
             let mut s = Sentence::from_raw(text).unwrap();
             p.predict(&mut s);
             let want = crate::gen::reference_scores(&sy.want, text);
